@@ -5,16 +5,22 @@ import subprocess
 
 ID = "C12"
 RULE = ("service sets of 1-32 generated uuids (27-character and other lengths, some sharing their last 15 "
-        "characters so that weights tie), random block hashes, ops order/read/write/bal/roots, plus every "
-        "single removal for a subset of the sets; a case is non-trivial when it has >= 2 services; distinct "
-        "= distinct case line")
+        "characters so that weights tie), random block hashes, ops order/read/write/bal/roots/rootseq/reload, "
+        "every single removal for a subset of the sets; the same inputs for the Python SDK (pyorder/pyload/"
+        "pyroots); two blocks on one Balancer under every suspension point (balpair) and 500-4000 blocks through "
+        "one ComputeChangeSets (balsweep); a case is non-trivial when it has >= 2 services; distinct = distinct "
+        "case line")
 ASSUMPTIONS = ["weights are compared as numbers in the model and as equal-length lowercase hex strings in Go",
-               "keep-balance's ranking is observed through pull targets for desired replication 1..N"]
+               "keep-balance's ranking is observed through pull targets for desired replication 1..N",
+               "Python SDK: KeepLocator and KeepClient._service_weight/weighted_service_roots/build_services_list are "
+               "executed from the current keep.py by AST extraction; API client, lock and logger are stubs"]
 TRUSTED = ["executable MD5 in Lean (ArvVerif/Base/MD5.lean), compared with Go crypto/md5 through every case"]
 
 DRIVERS = {
     "kc": {"kind": "gotest", "pkg": "sdk/go/keepclient", "test": "TestVerifC12"},
     "kb": {"kind": "gotest", "pkg": "services/keep-balance", "test": "TestVerifC12"},
+    # the Python SDK's copy of the algorithm, extracted by AST from the current keep.py
+    "py": {"kind": "python", "script": "harness/py/c12_keep_driver.py", "timeout": 600},
 }
 
 ALNUM = "abcdefghijklmnopqrstuvwxyz0123456789"
@@ -44,7 +50,46 @@ def overlay_generated(repo, workdir):
 
 
 def channel(case):
+    if case.startswith("py"):
+        return "py"
     return "kb" if case.startswith(("bal ", "balpair ", "balsweep ")) else "kc"
+
+
+PY_OPS = ("pyorder", "pyload", "pyroots")
+
+
+def _py_twins(case, rng):
+    """The same inputs for the Python SDK (third implementation)."""
+    f = case.split(" ")
+    if f[0] in ("order", "read"):
+        return [f"pyorder {f[1]} {f[2]}"]
+    if f[0] == "write":
+        recs = []
+        for p in _split(f[2]):
+            u, w = p.rsplit(":", 1)
+            if ":" in u:
+                return []
+            recs.append(f"{u}:{rng.choice('dddpg')}:{'0' if w == '1' else '1'}")
+        return [f"pyload {f[1]} {','.join(recs)}"]
+    if f[0] == "roots":
+        out = [f"pyroots {f[1]} {f[2]} {f[3]}"]
+        # a variant Python accepts: hash+size first, malformed fields dropped or replaced by a
+        # well-formed signature hint
+        parts = f[1].split("+")
+        h = [x for x in parts if len(x) == 32 and all(c in "0123456789abcdef" for c in x)][:1]
+        size = [x for x in parts if x.isdigit()][:1]
+        hints = []
+        for x in parts:
+            if x in h or x in size:
+                continue
+            if x[:1] == "K" and len(x) >= 2 and all(c.isalnum() or c in "@_-" for c in x):
+                hints.append(x)
+            elif rng.random() < 0.5:
+                hints.append("A" + "%040x" % rng.getrandbits(160) + "@" + "%x" % rng.getrandbits(rng.choice([4, 31, 32])))
+        if h and size:
+            out.append(f"pyroots {'+'.join(h + size + hints)} {f[2]} {f[3]}")
+        return out
+    return []
 
 
 def _uuid(rng, ties_pool):
@@ -180,6 +225,12 @@ def generate(rng, tier):
             if k > 1 and rng.random() < 0.5:
                 i = rng.randrange(k)
                 cases.append(f"{op} {h} {','.join(us[:i] + us[i + 1:])}")
+    # the Python SDK on the same inputs
+    twins = []
+    for c in cases:
+        if c.split(" ", 1)[0] in ("order", "read", "write", "roots") and rng.random() < 0.6:
+            twins += _py_twins(c, rng)
+    cases += twins
     # whole sweeps: many blocks through one ComputeChangeSets call (real worker pool, >= 8 workers)
     for _ in range(6 if tier == "quick" else 40):
         k = rng.randint(3, 16)
@@ -194,7 +245,8 @@ def _split(s):
 
 def compare(case, impl, model):
     """impl is one concrete order; model is the allowed set written as tie groups."""
-    if case.startswith("balsweep "):
+    if case.startswith(("balsweep ", "py")):
+        # Python's sort is stable: the model predicts the exact order, also inside a tie
         return impl == model
     if case.startswith("balpair "):
         f = case.split(" ")
@@ -251,8 +303,10 @@ def oracle(case, impl):
     if impl.startswith("schedule-dependent"):
         return ("keep-balance's ranking of a block depends on another block being balanced at the same time, so it is "
                 "not a function of the service set and the hash: " + impl[:600])
-    if impl.startswith(("panic", "CRASH", "unexpected", "short")):
+    if impl.startswith(("panic", "CRASH", "unexpected", "short", "error ")):
         return "driver could not observe an order: " + impl[:200]
+    if f[0] in PY_OPS:
+        return _py_oracle(f, impl)
     if f[0] == "balpair":
         parts = impl.split(" / ")
         if len(parts) != 2:
@@ -336,6 +390,65 @@ def _uuid_field(f):
     return f[3] if f[0] == "balpair" else f[2]
 
 
+def _desc_text_rule(h, got):
+    """descending MD5(hash + last 15 characters of the 27-character uuid); uuids of 16-26 or > 27
+    characters are outside the rule the text states (Go: whole uuid, Python: last 15) - not judged"""
+    if any(15 < len(u) != 27 for u in got):
+        return None
+    ws = [_weight(h, u) for u in got]
+    if any(a < b for a, b in zip(ws, ws[1:])):
+        return "Python SDK: services are not in descending MD5(hash+uuid suffix) order"
+    return None
+
+
+def _py_oracle(f, impl):
+    if f[0] == "pyorder":
+        us = _split(f[2])
+        if not us:
+            return None
+        got = _split(impl)
+        if sorted(got) != sorted(us):
+            return "Python SDK: order is not a permutation of the service set"
+        return _desc_text_rule(f[1], got)
+    if f[0] == "pyload":
+        recs = [p.split(":") for p in _split(f[2])]
+        if not recs:
+            return None
+        if ";" not in impl:
+            return "malformed pyload output: " + impl[:200]
+        rd, wr = (_split(x) for x in impl.split(";", 1))
+        keep = [r[0] for r in recs if r[1] != "g"]
+        writable = [r[0] for r in recs if r[1] != "g" and r[2] == "0"]
+        if sorted(rd) != sorted(keep):
+            return "Python SDK: read order is not a permutation of the non-gateway services"
+        if sorted(wr) != sorted(writable):
+            return "Python SDK: write order is not a permutation of the writable services"
+        if [u for u in rd if u in set(writable)] != wr and len(set(_weight(f[1], u) for u in rd)) == len(rd):
+            return "Python SDK: write order is not the read order restricted to the writable services"
+        return _desc_text_rule(f[1], rd) or _desc_text_rule(f[1], wr)
+    if f[0] == "pyroots":
+        if impl == "invalid-locator":
+            return None     # the Python SDK refuses locators it considers malformed; nothing is probed
+        loc, ls, gs = f[1], _split(f[2]), _split(f[3])
+        gw = dict(p.split("=", 1) for p in gs)
+        exp_h = []
+        for hint in loc.split("+"):
+            if len(hint) == 7 and hint.startswith("K@"):
+                exp_h.append("https://keep." + hint[2:] + ".arvadosapi.com/")
+            elif len(hint) == 29 and hint.startswith("K@") and hint[2:] in gw:
+                exp_h.append(gw[hint[2:]])
+        if ";" not in impl:
+            return "malformed pyroots output: " + impl[:200]
+        ih, io = impl.split(";", 1)
+        if _split(ih) != exp_h:
+            return f"Python SDK: usable hints are not tried first in locator order: expected {exp_h} got {ih}"
+        us, got = [p.split("=", 1)[0] for p in ls], _split(io)
+        if sorted(got) != sorted(us):
+            return "Python SDK: order is not a permutation of the service set"
+        return _desc_text_rule(loc[:32], got)
+    return None
+
+
 def nontrivial_key(case, impl):
     f = case.split(" ")
     n = len(_split(_uuid_field(f).split(";")[0]))
@@ -361,7 +474,34 @@ def describe(cases, impl):
             us = _split(f[2])
             if len({_weight(f[1], u) for u in us}) < len(us):
                 ties += 1
-    return {"ops": d, "set_sizes": sizes, "cases_with_weight_ties": ties}
+    # classes named in the quantifier text, with counts
+    ulen = {"27": 0, "<=15": 0, "16-26": 0, ">27": 0}
+    hints = {"cluster5": 0, "gateway27_known": 0, "gateway27_unknown": 0, "other_K@": 0, "non_K": 0, "no_hint_locators": 0}
+    py_invalid = 0
+    for c, r in zip(cases, impl or [None] * len(cases)):
+        f = c.split(" ")
+        if f[0] in ("order", "read", "pyorder", "bal"):
+            for u in _split(f[2]):
+                n = len(u)
+                ulen["27" if n == 27 else "<=15" if n <= 15 else "16-26" if n < 27 else ">27"] += 1
+        if f[0] in ("roots", "pyroots"):
+            gw = {p.split("=", 1)[0] for p in _split(f[3])}
+            hs = f[1].split("+")[1:]
+            if not any(x.startswith("K@") for x in hs):
+                hints["no_hint_locators"] += 1
+            for x in hs:
+                if not x.startswith("K@"):
+                    hints["non_K"] += 1
+                elif len(x) == 7:
+                    hints["cluster5"] += 1
+                elif len(x) == 29:
+                    hints["gateway27_known" if x[2:] in gw else "gateway27_unknown"] += 1
+                else:
+                    hints["other_K@"] += 1
+            if f[0] == "pyroots" and r == "invalid-locator":
+                py_invalid += 1
+    return {"ops": d, "set_sizes": sizes, "cases_with_weight_ties": ties, "uuid_lengths": ulen,
+            "hint_classes": hints, "pyroots_rejected_by_KeepLocator": py_invalid}
 
 
 def neighbours(case, rng):
